@@ -83,9 +83,9 @@ def check_conversion(case):
     worst = 0.0
     for i in range(n):
         px, py, pz = pts[i]
-        th_ref = math.acos(max(-1.0, min(1.0, pz / rn[i])))
+        th_ref = math.atan2(math.hypot(px, py), pz)  # the angle from +z, well conditioned everywhere
         e = abs(theta[i] - th_ref)
-        require(e <= 3e-8, f"colatitude {theta[i]!r} != acos(z/r) = {th_ref!r} for point {pts[i].tolist()}", e)
+        require(e <= 1e-14, f"colatitude {theta[i]!r} != angle from +z = {th_ref!r} for point {pts[i].tolist()}", e)
         worst = max(worst, e)
         if math.hypot(px, py) > 1e-9 * rn[i]:
             ph_ref = math.atan2(py, px)
@@ -94,9 +94,10 @@ def check_conversion(case):
     xb, yb, zb = sut(G.to_cartesian, phi, theta, r)
     back = np.column_stack([xb, yb, zb])
     e = float(np.abs(back - pts).max(axis=1, initial=0.0).max() / 1.0) if n == 0 else float((np.abs(back - pts).max(axis=1) / rn).max())
-    # acos(z/r) is a legitimate way to get the colatitude; it loses ~1e-16/sin(theta) near the poles
-    sin_t = np.maximum(np.hypot(pts[:, 0], pts[:, 1]) / rn, 1e-9)
-    tol_rt = float(np.max(1e-12 + 2e-15 / sin_t))
+    # "the identity for every point": measured round-trip error of the conversion pair is
+    # 3.8e-16 |v| over 2e5 points down to 1e-17 rad from either pole and |v| in 1e-150..1e150
+    # (a colatitude from acos(z/r) would lose up to 1e-8 |v| near the poles: x and y vanish)
+    tol_rt = 1e-13
     require(e <= tol_rt, f"cartesian -> spherical -> cartesian is not the identity (relative error {e:.3e}) for {pts.tolist()} -> (r,phi,theta)=({r.tolist()},{phi.tolist()},{theta.tolist()})", e)
     off_axis = any(np.count_nonzero(np.abs(p) > 1e-12 * np.linalg.norm(p)) >= 2 for p in pts)
     return {"nontrivial": bool(off_axis), "labels": [case["dirs"][0]["k"], "scalar" if case["scalar"] else "array"], "residual": max(worst, e)}
